@@ -3,7 +3,7 @@
 # op -> kind.  corr: Rust vs implementation model (correspondence).  oracle: Rust vs the spec
 # answer that the property theorems say must come out (property oracle on the real code).
 OPS = {
-    "numenc": "corr", "numdec": "corr", "enc": "corr", "encinto": "corr", "dec": "corr",
+    "numenc": "oracle", "numdec": "oracle", "enc": "corr", "encinto": "corr", "dec": "corr",
     "encspec": "oracle", "rtdec": "oracle", "rtenc": "oracle",
     # number ops: the model functions are proved equal to the mathematical definitions for every
     # input (C18 theorems: codec round trip, order = order of exact values, views exact or absent),
@@ -26,9 +26,68 @@ def kind_of(op):
         return "oracle"
     return OPS.get(op, "corr")
 
+# source-translator tie (tools/rs2lean.py): agreement theorems (namespace Jsonb.TrAgree, Proofs/TranslatedAgree*.lean)
+# `function translated from /repo's current source = hand-written model function` that each property relies on
+_JE = ["decode_jentry_agrees", "encoded_agrees", "make_null_jentry_agrees", "make_true_jentry_agrees", "make_false_jentry_agrees",
+       "make_string_jentry_agrees", "make_number_jentry_agrees", "make_container_jentry_agrees", "string_word_agrees", "number_word_agrees",
+       "container_word_agrees", "null_word_agrees", "true_word_agrees", "false_word_agrees"]
+_RD = ["read_u32_agrees", "iterator_read_u32_agrees", "decode_jentry_agrees"]
+_NUMV = ["as_i64_agrees", "as_u64_agrees", "as_f64_agrees"]
+_NUMO = ["cmp_int_float_agrees", "orderedFloatCmp_eq", "cmp_agrees"]
+_IDX = ["convert_index_agrees", "convert_slice_agrees"]
+TIE = {
+    "C01": _JE + ["compact_encode_agrees", "decode_agrees"],
+    "C02": ["decode_hex_val_agrees"],
+    "C03": ["pretty_opts_new_agrees", "pretty_opts_inc_indent_agrees", "read_u32_agrees", "decode_jentry_agrees", "decode_agrees"],
+    "C04": ["jentry_compare_level_agrees", "read_u32_agrees", "decode_jentry_agrees", "decode_agrees"] + _NUMO,
+    "C05": _RD + ["is_jsonb_agrees", "decode_agrees"] + _NUMV,
+    "C06": _RD + _JE,
+    "C07": _RD + _JE + _IDX,
+    "C08": _IDX + ["cmp_agrees", "decode_agrees"],
+    "C09": ["decode_hex_val_agrees"],
+    "C10": ["decode_agrees", "decode_jentry_agrees"],
+    "C11": ["is_jsonb_agrees"],
+    "C12": ["read_u32_agrees", "decode_jentry_agrees", "decode_agrees", "cmp_agrees"],
+    "C13": _RD + ["make_container_jentry_agrees", "container_word_agrees"],
+    "C14": ["jentry_compare_level_agrees", "as_f64_agrees", "decode_agrees", "read_u32_agrees"],
+    "C15": _IDX,
+    "C16": ["decode_hex_val_agrees"],
+    "C17": ["encoded_agrees", "string_word_agrees", "number_word_agrees", "container_word_agrees", "compact_encode_agrees"],
+    "C18": ["compact_encode_agrees", "decode_agrees"] + _NUMV + _NUMO,
+    "C19": _NUMV + ["decode_agrees", "read_u32_agrees", "decode_jentry_agrees"],
+    "C20": _IDX + ["read_u32_overflow", "iterator_read_u32_overflow"],
+}
+
+# agreement theorem -> the source declarations (keys of the translator's status) it is about
+TIE_SOURCES = {
+    "decode_jentry_agrees": ["src/jentry.rs::struct JEntry", "src/jentry.rs::JEntry::decode_jentry"],
+    "encoded_agrees": ["src/jentry.rs::struct JEntry", "src/jentry.rs::JEntry::encoded"],
+    "compact_encode_agrees": ["src/number.rs::enum Number", "src/number.rs::Number::compact_encode"],
+    "decode_agrees": ["src/number.rs::enum Number", "src/number.rs::Number::decode"],
+    "as_i64_agrees": ["src/number.rs::enum Number", "src/number.rs::Number::as_i64"],
+    "as_u64_agrees": ["src/number.rs::enum Number", "src/number.rs::Number::as_u64"],
+    "as_f64_agrees": ["src/number.rs::enum Number", "src/number.rs::Number::as_f64"],
+    "cmp_int_float_agrees": ["src/number.rs::cmp_int_float"],
+    "orderedFloatCmp_eq": [],
+    "cmp_agrees": ["src/number.rs::enum Number", "src/number.rs::Number::cmp", "src/number.rs::cmp_int_float"],
+    "convert_index_agrees": ["src/jsonpath/path.rs::enum Index", "src/jsonpath/selector.rs::Selector::convert_index"],
+    "convert_slice_agrees": ["src/jsonpath/path.rs::enum Index", "src/jsonpath/selector.rs::Selector::convert_slice"],
+    "jentry_compare_level_agrees": ["src/jentry.rs::struct JEntry", "src/functions.rs::jentry_compare_level"],
+    "is_jsonb_agrees": ["src/functions.rs::is_jsonb"],
+    "read_u32_agrees": ["src/functions.rs::read_u32"], "read_u32_overflow": ["src/functions.rs::read_u32"],
+    "iterator_read_u32_agrees": ["src/iterator.rs::read_u32"], "iterator_read_u32_overflow": ["src/iterator.rs::read_u32"],
+    "decode_hex_val_agrees": ["src/util.rs::decode_hex_val"],
+    "pretty_opts_new_agrees": ["src/functions.rs::struct PrettyOpts", "src/functions.rs::PrettyOpts::new"],
+    "pretty_opts_inc_indent_agrees": ["src/functions.rs::struct PrettyOpts", "src/functions.rs::PrettyOpts::inc_indent"],
+}
+for _k in ("null", "true", "false", "string", "number", "container"):
+    TIE_SOURCES["make_%s_jentry_agrees" % _k] = ["src/jentry.rs::struct JEntry", "src/jentry.rs::JEntry::make_%s_jentry" % _k]
+    TIE_SOURCES["%s_word_agrees" % _k] = ["src/jentry.rs::struct JEntry", "src/jentry.rs::JEntry::make_%s_jentry" % _k, "src/jentry.rs::JEntry::encoded"]
+
 TRUSTED_BASE = [
     "Lean 4.33.0 kernel (thorough tier re-checks the theorem module with leanchecker)",
     "axioms: only propext, Classical.choice, Quot.sound (audited per theorem by #print axioms on every run); no native_decide, no bv_decide, no user axioms, no sorry",
+    "tools/rs2lean.py (translator of 26 leaf functions of /repo/src to Lean, regenerated every run) with lean/JsonbModel/RustPrelude*.lean (hand-written meaning of the Rust primitives it emits: integer casts, checked arithmetic, byte conversions, OrderedFloat); the agreement theorems tie its output to the model",
     "tools/gen_constants.py (translator constants.rs -> Lean) and the line-protocol glue (lean/JsonbModel/Driver/*.lean, harness/src/wire.rs)",
     "the correspondence check itself: the hand-written implementation model is tied to /repo by sampled differential runs (request stream of this run, see coverage)",
     "modelled, not verified: Rust slice/Vec/integer-cast semantics, BTreeMap ordering, byteorder; the spec layer is my reading of the README and the property text",
